@@ -253,11 +253,12 @@ CLAIMED['C12'] = dict(
     technique="Coq proofs (closed under the global context): invariant of a fuel-indexed model of copy.deepcopy with memo over strong/weak reference graphs; semantic theorem for a mutation discipline checked by vm_compute on skeletons regenerated from the live hook registry (T-S); snapshot search on real sequences",
     text=("Deep copy, for every heap, root and recursion budget: the original objects are untouched, the root's copy and every memoised copy are new "
           "objects, and every reference held by a new object - strong or weak (parent, owner, unit, roll-pass back-references) - points to a new "
-          "object.  Every registered hook implementation and Profile factory keeps the mutation discipline (whatever it changes in place it created "
+          "object; a weak reference whose target is gone is kept dead, the root's copy has its fields' kinds position by position, and the pinned pre-repair copy "
+          "fails on one dead back-reference (refutation witness).  Every registered hook implementation and Profile factory keeps the mutation discipline (whatever it changes in place it created "
           "itself), and a disciplined function never changes an object that existed before it ran, whatever its reads alias.  Partial: that "
           "Unit.solve writes only unit-owned objects (caller's profile, grooves, earlier and returned profiles untouched) is decided by "
           "identity+value snapshots over random operation orders on six layouts, not by a theorem; T-S is flow insensitive and knows mutators by name."),
-    note=("Trusted: Coq kernel, no axioms; Heap.v hand-written, tied by the memoisation order of copy.deepcopy on 60+ real object graphs; translator "
+    note=("Trusted: Coq kernel, no axioms; Heap.v hand-written, tied by the memoisation order of copy.deepcopy on 150+ real object graphs (about half of them with dead back-references); translator "
           "T-S (tools/py2coq/mutations_ts.py)."),
     ref="DESIGN.md section 4 C12")
 
